@@ -243,6 +243,7 @@ func C02(run *Run) {
 	loEngines := []string{"classic", "weighted", "pipeline", "pipeline:c1:q1:p1", "pipeline:c2:q0:p3", "classic:b1:r1", "weighted:b2:r3", "classic:thr"}
 	var mu sync.Mutex
 	// more candidates than the engines' internal buffers hold, every one needing a follow-up Check
+	runWideCheck(ctx, v, rec, run, run.Pick(260, 520)) // Check with several hundred user-side objects (batched set operations)
 	runWide(ctx, v, rec, run, []string{"classic:d20", "classic:b1:d20", "classic:b1:r1:d20", "classic:b3:d20", "weighted:d20", "weighted:b1:r1:d4", "weighted:b2:r3:d20", "pipeline:d20", "classic:thr:d20"}, run.Pick(130, 400))
 	for c := 0; c < nCases; c++ {
 		cs, _ := GenCase(r, c, GenOpts{ForceShapes: true})
